@@ -6,8 +6,8 @@ ids="$@"; [ -z "$ids" ] && ids=$(ls /verif/seeded)
 wt=/tmp/evalwt.$$
 git -C /repo worktree add -q --detach $wt HEAD || exit 2
 cd /verif
-rm -rf /tmp/evidence.keep.$$; cp -r /verif/evidence /tmp/evidence.keep.$$
-trap 'rm -rf /verif/evidence; cp -r /tmp/evidence.keep.$$ /verif/evidence; rm -rf /tmp/evidence.keep.$$; git -C /repo worktree remove --force '$wt EXIT
+export VERIF_EVIDENCE=/tmp/evidence.eval.$$   # evidence of these runs is scratch
+trap 'rm -rf /tmp/evidence.eval.$$; git -C /repo worktree remove --force '$wt EXIT
 for id in $ids; do
   prop=${PROP:-${id:0:3}}
   if ! git -C $wt apply --check /verif/seeded/$id/patch.diff 2>/dev/null; then echo "$id: patch does not apply"; continue; fi
